@@ -236,3 +236,43 @@ def replay_input(cp, am, data, end=False, chunkings=("one", "bytes")):
         if d:
             return "final outputs: %s; input %r (%s)" % (d, bytes(data), mode), ncalls
     return None, ncalls
+
+
+def am_witnesses(am, reps, limit=40, maxlen=24, max_states=3000):
+    """shortest input reaching each reachable (machine state, data) configuration: BFS over the AM alone"""
+    from collections import deque
+    cfg0, code0, _ = am.start()
+    if code0 != "OK":
+        return [b""]
+    seen = {am.key(cfg0): b""}
+    fr = deque([am.key(cfg0)])
+    out = [b""]
+    states_seen = set()
+    while fr and len(seen) < max_states:
+        k = fr.popleft()
+        path = seen[k]
+        if len(path) >= maxlen:
+            continue
+        for c in reps:
+            cfg = am.mkcfg(k[0], dict(k[1]))
+            try:
+                code, adv, ev = am.feed_byte(cfg, c)
+                guard = 0
+                while code.startswith("YIELD") and not adv and guard < 16:
+                    code, adv, ev = am.feed_byte(cfg, c)
+                    guard += 1
+            except (UB, Spin):
+                continue
+            if code not in ("OK",) and not code.startswith("YIELD"):
+                if (k[0], c, code) not in states_seen and len(out) < limit:
+                    states_seen.add((k[0], c, code))
+                    out.append(path + bytes([c]))
+                continue
+            k2 = am.key(cfg)
+            if k2 not in seen:
+                seen[k2] = path + bytes([c])
+                fr.append(k2)
+                if k2[0] not in states_seen and len(out) < limit:
+                    states_seen.add(k2[0])
+                    out.append(path + bytes([c]))
+    return out
